@@ -308,6 +308,12 @@ func main() {
 		if g2 := smartclip.Ring(box, orb.Ring(refgeom.Spare(ring)), o); !g2.Equal(got) {
 			c.Failf(class("layout-dependent"), "the ring with spare capacity behind it clips to %v | %s", g2, desc)
 		}
+		// the same problem scaled by a power of two (exact in float64): the bit-for-bit scaled result
+		for _, k := range []float64{1024, 1.0 / 64} {
+			if gs := smartclip.Ring(refgeom.ScaleBound(box, k), refgeom.Scale(ring, k).(orb.Ring), o); !refgeom.Equal(gs, refgeom.Scale(got, k)) {
+				c.Failf(class("scaling"), "scaled by %v the ring clips to %v | %s", k, gs, desc)
+			}
+		}
 		ex := make([]ip, n)
 		for i := range ir {
 			ex[i] = ip{ir[i][0] * S, ir[i][1] * S}
